@@ -30,6 +30,8 @@ def _ch(prop, what, ref, note=None):
 
 
 CLAIMED.update({
+    "C01": _ch("C01", "argument and return leaves; server class x versions x translation x call style x argument structure x name table", "DESIGN.md 3/C01",
+               "Trusted: as for C02, plus the in-process loopback transport; TCP/Unix-socket transports and a serving pooled server are outside this check (real sockets and threads)."),
     "C02": _ch("C02", "ids, version markers, parameters, return values; body = parser outcome", "DESIGN.md 3/C02"),
     "C03": _ch("C03", "ids of every JSON kind, parameters; batch compositions n<=2/3", "DESIGN.md 3/C03"),
     "C04": _ch("C04", "ids, parameters; notification form x outcome x batch position x dispatch/pool configuration", "DESIGN.md 3/C04",
